@@ -314,7 +314,7 @@ pub fn run(out: &mut Out, thorough: bool, seed: u64) {
         run_type(out, &mut rng, &m, &spec, valid, vec![bad, bad2], thorough);
     }
     // L1BoundSum
-    for (max, mlen, chunk) in [(7u128, 4usize, 3usize), (1, 2, 1), (100, 3, 4)] {
+    for (max, mlen, chunk) in [(7u128, 4usize, 3usize), (1, 2, 1), (100, 3, 4), (7, 4, 7), (3, 2, 5), (1, 3, 3)] {
         let l = L1BoundSum::<F128, PS>::new(max, mlen, chunk).unwrap();
         let spec = format!("l1:{}:{}:{}:{}", mlen, bits_of(max), last_weight(max), chunk);
         let mut one = vec![0u128; mlen];
@@ -329,7 +329,18 @@ pub fn run(out: &mut Out, thorough: bool, seed: u64) {
         bad[n - b..].copy_from_slice(&zero[n - b..]);
         let mut bad2 = zero.clone();
         bad2[0] = fe(2);
-        run_type(out, &mut rng, &l, &spec, valid, vec![bad, bad2], thorough);
+        // the only defect is the last digit of the claimed norm: all other digits zero, the last one
+        // solved so that the norms agree (a bit only when max = last weight)
+        let mut invalid = vec![bad, bad2];
+        if last_weight(max) != max {
+            let mut bad3 = good.clone();
+            for x in bad3[n - b..].iter_mut() {
+                *x = fe(0);
+            }
+            bad3[n - 1] = fe::<F128>(max) * fe::<F128>(last_weight(max)).inv();
+            invalid.push(bad3);
+        }
+        run_type(out, &mut rng, &l, &spec, valid, invalid, thorough);
     }
     out.samples = out.ops.iter().step_by(out.ops.len() / 12 + 1).map(|s| s.chars().take(260).collect()).collect();
 }
